@@ -13,8 +13,9 @@ def run(R, ctx):
                                "The same SELECT-heavy sessions with protocol damage and client closes, every ended connection being replaced by a new "
                                "one: selection must start at database 0 on every new connection and stay private to it. "
                                "Parallel sessions: 4-10 connections re-select their own database before every command and work on the same key names at the "
-                               "same moment; every reply and the final contents of every database are those of the connection's own selection.",
-                               pubsub=False, damage=True, reconnect=True, parallel_select=8)
+                               "same moment; every reply and the final contents of every database are those of the connection's own selection. "
+                               "First-select races: 4-8 connections select the same database for the first time at the same moment (one step per index 1-15), each writes its own key; a late connection finds all of them there.",
+                               pubsub=False, damage=True, reconnect=True, parallel_select=8, first_select=8)
     R.rule = rule + " || " + R.rule
 
 
